@@ -368,6 +368,31 @@ fn positioned_case(r: &mut Report, frames: &[Vec<u8>], stamps: &[f64], reference
                     r.violation("C07:positioned:duplicate-key", format!("record of {}: duplicate keys {:?}", hexs(&t.frame), f.dup_keys), rp.clone());
                 }
             }
+            // the record keeps its frame: decoding that hex again gives the same fields (the position, which only the
+            // history can give, set aside)
+            fn strip(v: &mut serde_json::Value) {
+                if let Some(o) = v.as_object_mut() {
+                    o.remove("latitude");
+                    o.remove("longitude");
+                    for (_, x) in o.iter_mut() {
+                        strip(x);
+                    }
+                }
+            }
+            if let Ok(Ok(fresh)) = guarded(|| Message::try_from(t.frame.as_slice())) {
+                let again = TimedMessage { timestamp: t.timestamp, frame: t.frame.clone(), message: Some(fresh), metadata: vec![], decode_time: None };
+                if let (Ok(mut a), Ok(mut b)) = (serde_json::to_value(t), serde_json::to_value(&again)) {
+                    strip(&mut a);
+                    strip(&mut b);
+                    if a != b {
+                        ok = false;
+                        let diff: Vec<String> = a.as_object().map(|o| o.iter().filter(|(k, x)| b.get(k.as_str()) != Some(*x)).map(|(k, x)| format!("{k}: {x} vs {}", b.get(k.as_str()).cloned().unwrap_or_default())).collect()).unwrap_or_default();
+                        r.violation("C07:positioned:record-differs-from-its-frame", format!("record of {} after decode_positions does not show the fields of its own frame: {}", hexs(&t.frame), diff.join("; ")), rp.clone());
+                    } else {
+                        r.class("positioned:record==re-decoded-frame");
+                    }
+                }
+            }
             for key in ["latitude", "longitude"] {
                 if tree.get(key).map(|x| x.is_null()).unwrap_or(false) && ok {
                     ok = false;
@@ -385,54 +410,75 @@ fn positioned_case(r: &mut Report, frames: &[Vec<u8>], stamps: &[f64], reference
     }
 }
 
-/// Messages as jet1090 and decode1090 serialise them: after decode_positions has filled in the positions. Short
-/// histories of one aircraft (both parities, both orders, within the pairing window) at the latitudes where the CPR
-/// arithmetic degenerates (poles, 87 degrees, NL transitions, equator) and elsewhere; returns the frames for the
-/// decode1090 pass.
+/// One short history of one aircraft for the code that fills in positions (decode_positions): both parities, either
+/// first, airborne or surface, with or without a receiver reference, at the latitudes where the CPR arithmetic
+/// degenerates (poles, 87 degrees, NL transitions, equator) and elsewhere; reports 0.2-3 s apart, sometimes 10-15 s
+/// (beyond the pairing window) or 30-170 s (only the previous fix can help).
+pub struct PosPlan {
+    pub frames: Vec<Vec<u8>>,
+    pub stamps: Vec<f64>,
+    pub reference: Option<[f64; 2]>,
+    pub cls: &'static str,
+    pub what: String,
+}
+
+pub fn positioned_plan(rng: &mut Rng, tr: &[f64]) -> PosPlan {
+    let (lat, cls) = match rng.below(10) {
+        0 => (*rng.pick(&[90.0, -90.0, 89.999, -89.999]), "pole"),
+        1 => (rng.uni(87.0, 90.0) * if rng.chance(0.5) { 1.0 } else { -1.0 }, "polar-cap(>87)"),
+        2 => (*rng.pick(&[87.0, -87.0, 86.99999, -86.99999, 87.00001, -87.00001]), "87-degrees"),
+        3 => {
+            let t = *rng.pick(tr);
+            ((t + rng.uni(-0.002, 0.002)) * if rng.chance(0.5) { 1.0 } else { -1.0 }, "nl-transition")
+        }
+        4 => (rng.uni(-0.01, 0.01), "equator"),
+        _ => (rng.uni(-86.0, 86.0), "mid-latitude"),
+    };
+    let lat = lat.clamp(-90.0, 90.0);
+    let lon = match rng.below(6) {
+        0 => *rng.pick(&[0.0, 180.0, -180.0, 179.9999, -179.9999, 90.0, -90.0]),
+        _ => rng.uni(-180.0, 180.0),
+    };
+    let surface = rng.chance(0.25) && lat.abs() < 89.0;
+    let icao = rng.below(1 << 24) as u32;
+    let mut odd = rng.chance(0.5);
+    let k = rng.range(2, 7) as usize;
+    let mut frames = vec![];
+    let mut stamps = vec![];
+    let mut ts = 1_700_000_000.0;
+    for i in 0..k {
+        // a slow aircraft: the position barely moves between reports
+        frames.push(super::c06::build_frame(icao, (lat + i as f64 * 1e-5).clamp(-90.0, 90.0), lon, odd, surface, rng));
+        stamps.push(ts);
+        ts += match rng.below(20) {
+            0..=13 => rng.uni(0.2, 3.0),
+            14..=16 => rng.uni(10.0, 15.0),
+            _ => rng.uni(30.0, 170.0),
+        };
+        // mostly alternating parity, sometimes the same one again
+        if !rng.chance(0.15) {
+            odd = !odd;
+        }
+    }
+    let reference = if surface || rng.chance(0.3) { Some([(lat + rng.uni(-0.3, 0.3)).clamp(-90.0, 90.0), lon]) } else { None };
+    PosPlan { frames, stamps, reference, cls, what: format!("true position {lat:.6},{lon:.6}, {}", if surface { "surface" } else { "airborne" }) }
+}
+
+/// Messages as jet1090 and decode1090 serialise them: after decode_positions has filled in the positions. Returns the
+/// frames for the decode1090 pass.
 fn positioned(r: &mut Report, rng: &mut Rng, n: u64) -> Vec<Vec<u8>> {
-    use crate::oracle::geo;
-    let tr = geo::transitions();
+    let tr = crate::oracle::geo::transitions();
     let mut out = vec![];
     for _ in 0..n {
-        let (lat, cls) = match rng.below(10) {
-            0 => (*rng.pick(&[90.0, -90.0, 89.999, -89.999]), "pole"),
-            1 => (rng.uni(87.0, 90.0) * if rng.chance(0.5) { 1.0 } else { -1.0 }, "polar-cap(>87)"),
-            2 => (*rng.pick(&[87.0, -87.0, 86.99999, -86.99999, 87.00001, -87.00001]), "87-degrees"),
-            3 => {
-                let t = *rng.pick(&tr);
-                ((t + rng.uni(-0.002, 0.002)) * if rng.chance(0.5) { 1.0 } else { -1.0 }, "nl-transition")
-            }
-            4 => (rng.uni(-0.01, 0.01), "equator"),
-            _ => (rng.uni(-86.0, 86.0), "mid-latitude"),
-        };
-        let lat = lat.clamp(-90.0, 90.0);
-        let lon = match rng.below(6) {
-            0 => *rng.pick(&[0.0, 180.0, -180.0, 179.9999, -179.9999, 90.0, -90.0]),
-            _ => rng.uni(-180.0, 180.0),
-        };
-        let surface = rng.chance(0.25) && lat.abs() < 89.0;
-        let icao = rng.below(1 << 24) as u32;
-        let first_odd = rng.chance(0.5);
-        let k = rng.range(2, 5) as usize;
-        let mut frames = vec![];
-        let mut stamps = vec![];
-        let mut ts = 1_700_000_000.0;
-        for i in 0..k {
-            let odd = first_odd ^ (i % 2 == 1);
-            // a slow aircraft: the position barely moves between reports
-            frames.push(super::c06::build_frame(icao, (lat + i as f64 * 1e-5).clamp(-90.0, 90.0), lon, odd, surface, rng));
-            stamps.push(ts);
-            ts += rng.uni(0.2, 3.0);
-        }
-        let reference = if surface || rng.chance(0.3) { Some([(lat + rng.uni(-0.3, 0.3)).clamp(-90.0, 90.0), lon]) } else { None };
-        positioned_case(r, &frames, &stamps, reference, cls, &format!("true position {lat:.6},{lon:.6}, {}", if surface { "surface" } else { "airborne" }));
-        out.extend(frames);
+        let p = positioned_plan(rng, &tr);
+        positioned_case(r, &p.frames, &p.stamps, p.reference, p.cls, &p.what);
+        out.extend(p.frames);
     }
     out
 }
 
 pub fn run(a: &Args, r: &mut Report) {
-    r.rule = "shape space enumerated completely: DF 0..31 x (DF18: CF 0..7) x TC 0..31 x 3-bit subtype x (TC31: version 0..7) and DF20/21 x register hypothesis (x BDS 3,0 threat type 0..3), each shape filled N times with boundary-biased bits (N = 6 quick, 400 thorough); plus random structured frames; plus the positioned family: 2-5 position reports of one aircraft (both parities, either first, 0.2-3 s apart, airborne and surface, with and without a reference) at poles, polar caps, 87 degrees, NL transitions, the equator and mid latitudes, serialised after decode_positions has filled in the position (as jet1090 and decode1090 do) and also sent through the decode1090 executable. distinct_nontrivial = distinct ACCEPTED frames whose JSON passed every check".into();
+    r.rule = "shape space enumerated completely: DF 0..31 x (DF18: CF 0..7) x TC 0..31 x 3-bit subtype x (TC31: version 0..7) and DF20/21 x register hypothesis (x BDS 3,0 threat type 0..3), each shape filled N times with boundary-biased bits (N = 6 quick, 400 thorough); plus random structured frames; plus the positioned family: 2-7 position reports of one aircraft (each with an altitude of its own) (both parities, either first, mostly alternating, 0.2-3 s apart and sometimes 10-15 s or 30-170 s, airborne and surface, with and without a reference) at poles, polar caps, 87 degrees, NL transitions, the equator and mid latitudes, serialised after decode_positions has filled in the position (as jet1090 and decode1090 do) and also sent through the decode1090 executable. distinct_nontrivial = distinct ACCEPTED frames whose JSON passed every check".into();
     if let Some(p) = &a.replay {
         let v: serde_json::Value = serde_json::from_str(&std::fs::read_to_string(p).unwrap()).unwrap();
         if let Some(fs) = v["replay"]["frames"].as_array() {
